@@ -109,6 +109,11 @@ Theorem canon_parses_back_to_norm t v o :
 Proof. exact (canon_parses_back t v o). Qed.
 Print Assumptions canon_parses_back_to_norm.
 
+(* the premise in computable form: floats_okb is evaluated by the check on every generated input *)
+Theorem float_premise_is_computable v : floats_okb v = true -> floats_ok v.
+Proof. exact (floats_okb_sound v). Qed.
+Print Assumptions float_premise_is_computable.
+
 Theorem canon_parses_back_to_norm_float_free t v o :
   parse t = Ok v -> float_free v = true -> canon t = Ok o -> parse o = Ok (norm v).
 Proof. exact (fun P F => canon_parses_back t v o P (floats_ok_float_free v F)). Qed.
